@@ -14,8 +14,8 @@ func init() { register("C14", propC14) }
 
 func propC14() *Property {
 	return &Property{
-		ID:      "C14",
-		Decides: "the four independently computed quantities of a datagram are wired to the budget of their own segment and the budget arithmetic is folded on the whole supported MTU range: R14.1 packetOverhead == nonce 24 + metadata 32 + two tags of 16 == 88 and equals the constant terms of the assembled buffer; R14.2 fragment sizes: maxFragmentSize folded for every MTU 1280..1500 x transport x low-entropy mode satisfies size + 88 <= MTU (UDP), ceil(size/C)*8 + 88 <= MTU (UDP low entropy), size <= 32768 and encoded length <= 65535 (TCP); R14.3 padding budget: maxPaddingSize folded over MTU x payload x existing padding returns a value in [0,255] that never exceeds MTU - payload - 88 - existing (UDP); R14.4 wiring at both UDP write sites: every padding cap is computed from u.mtu, the transport, the payloadLen field of the very metadata that is marshalled, and the length of the padding already placed (0 for the first, len(padding1) for the second); the low-entropy path refuses a datagram longer than the MTU before writing; R14.5 the narrow length fields: the piggyback test bounds len(b) by 1024 before uint16(len(b)), the fragment loop's fragment count is bounded by 256 for every supported MTU (folded), windowSize is derived from the constant tree capacity 4096.; R14.6 the configured MTU reaches the underlay unchanged for every value 1280..1500",
+		ID:         "C14",
+		Decides:    "the four independently computed quantities of a datagram are wired to the budget of their own segment and the budget arithmetic is folded on the whole supported MTU range: R14.1 packetOverhead == nonce 24 + metadata 32 + two tags of 16 == 88 and equals the constant terms of the assembled buffer; R14.2 fragment sizes: maxFragmentSize folded for every MTU 1280..1500 x transport x low-entropy mode satisfies size + 88 <= MTU (UDP), ceil(size/C)*8 + 88 <= MTU (UDP low entropy), size <= 32768 and encoded length <= 65535 (TCP); R14.3 padding budget: maxPaddingSize folded over MTU x payload x existing padding returns a value in [0,255] that never exceeds MTU - payload - 88 - existing (UDP); R14.4 wiring at both UDP write sites: every padding cap is computed from u.mtu, the transport, the payloadLen field of the very metadata that is marshalled, and the length of the padding already placed (0 for the first, len(padding1) for the second); the low-entropy path refuses a datagram longer than the MTU before writing; R14.5 the narrow length fields: the piggyback test bounds len(b) by 1024 before uint16(len(b)), the fragment loop's fragment count is bounded by 256 for every supported MTU (folded), windowSize is derived from the constant tree capacity 4096.; R14.6 the configured MTU reaches the underlay unchanged for every value 1280..1500",
 		NotDecided: "the final inequality len(datagram) <= MTU as arithmetic over all four configuration axes jointly (the rule decides the wiring and each budget function on the MTU range, not the sum for every combination); MTU outside the validators' range [1280,1500].",
 		Rules: []Rule{
 			{ID: "R14.1", Floor: 2, Text: "packetOverhead constant and the assembled buffer's constant terms", Run: r14_1},
